@@ -122,6 +122,76 @@ def run_pool(shard):
     return part.result()
 
 
+# ---- quantifiers over the instances of dynamic templates, DYNAMIC_EVAL members, numOf / foreach in queries -----------------
+DYN_XTA = ("dynamic Worker(int[0,3] wk); dynamic Probe(); " + G.DECL + """
+process Worker(int[0,3] wk) { int load = 1; clock t; state Idle; init Idle; }
+process Probe() { int level = 2; state Wait; init Wait; }
+process Main() { state A; init A; }
+M = Main();
+system M;
+""")
+DYN_CTX = {"kind": "xta", "text": DYN_XTA}
+DYN_MEMBERS = {"Worker": ("load", "Idle"), "Probe": ("level", "Wait")}
+
+
+def dynamic_items():
+    """(expressions, queries): each dynamic quantifier x template x body (member of the bound instance, globals, a binder that
+    hides a global), in three surroundings; all ordered pairs of nested quantifiers incl. the same binder name twice"""
+    exprs, queries = [], []
+
+    def bodies(b, tn):
+        num, loc = DYN_MEMBERS[tn]
+        return ["%s.%s > a" % (b, num), "%s.%s" % (b, loc), "%s.%s == b + 1 && q" % (b, num), "a < b", "fn1(%s.%s) > arr[c]" % (b, num),
+                "%s.%s && !(%s.%s < rec.f)" % (b, loc, b, num)]
+
+    def nums(b, tn):
+        num, _ = DYN_MEMBERS[tn]
+        return ["%s.%s" % (b, num), "%s.%s + a" % (b, num), "a * 2", "fn2(%s.%s, b)" % (b, num)]
+
+    quants = []
+    for tn in DYN_MEMBERS:
+        for b in ("w1", "p"):                     # `p` is also a global bool
+            for qf in ("forall", "exists"):
+                for body in bodies(b, tn):
+                    quants.append("%s (%s : %s)(%s)" % (qf, b, tn, body))
+            for body in nums(b, tn):
+                quants.append("(sum (%s : %s)(%s)) > c" % (b, tn, body))
+    for qf1 in ("forall", "exists"):
+        for qf2 in ("forall", "exists", "sum"):
+            for b2 in ("r", "w1"):
+                inner = ("%s (%s : Probe)(w1.load > %s.level + c)" % (qf2, b2, b2) if qf2 != "sum"
+                         else "(sum (%s : Probe)(%s.level + c)) < w1.load" % (b2, b2))
+                if b2 == "w1":                     # the inner binder hides the outer one; the outer one is used after it
+                    inner = ("%s (w1 : Probe)(w1.level > c)" % qf2 if qf2 != "sum" else "(sum (w1 : Probe)(w1.level)) > c") + " && w1.load > a"
+                quants.append("%s (w1 : Worker)(%s)" % (qf1, inner))
+    for x in quants:
+        exprs += [x, "%s && a > b" % x, "!(%s) || q" % x]
+        queries += ["Pr[<=10](<> %s)" % x, "Pr[<=10]([] %s && numOf(Worker) > a)" % x]
+    for tn in DYN_MEMBERS:
+        num, loc = DYN_MEMBERS[tn]
+        queries += ["simulate [<=10] { numOf(%s), (sum (w1 : %s)(w1.%s)), a }" % (tn, tn, num),
+                    "Pr[<=10](<> (foreach (w1 : %s)(w1.%s)) > numOf(%s))" % (tn, num, tn),
+                    "E[<=10; 5](max: (sum (w1 : %s)(w1.%s + b)))" % (tn, num),
+                    "Pr[<=10](<> numOf(%s) == b + 1)" % tn]
+    return exprs, queries
+
+
+def run_dynamic(shard):
+    part = engine.Part()
+    w = engine.worker("fast")
+    i, n = shard
+    exprs, queries = dynamic_items()
+    ex = [t for k, t in enumerate(exprs) if k % n == i]
+    for text, r in zip(ex, call(w, "exprs", DYN_CTX, ex, typecheck=True)):
+        judge(part, "dynamic-expr", text, r, {"op": "exprs", "ctx": DYN_CTX, "items": [text], "laws": True})
+    qs = [t for k, t in enumerate(queries) if k % n == i]
+    for text, r in zip(qs, call(w, "queries", DYN_CTX, qs)):
+        judge(part, "dynamic-query", text, r, {"op": "queries", "ctx": DYN_CTX, "items": [text], "laws": True})
+    return part.result()
+
+
+DYN_SEQ_EXPRS = ["forall (w1 : Worker)(w1.load > a)", "(sum (w1 : Probe)(w1.level + b)) > c",
+                 "exists (w1 : Worker)(forall (r : Probe)(w1.load > r.level + c))"]
 SEQ_EXPRS = ["a + b * c", "fn2(a, rec.g) > arr[b]", "a = b", "forall (i : int[0,1]) arr[i] > a", "p ? a : rec.f", "arr[a] + arr[b]",
              "fn1(a) + fn1(a)", "(a < b) && (b < c || p)", "rec.g - rec2.g", "-a + abs(z)", "mat[a][b] * 2", "sum (i : int[0,1]) arr[i] * a",
              "a++ + --b", "fma(z, w, z) > 1.5", "x' == a", "recs[a].f + b"]
@@ -132,8 +202,8 @@ def run_sequences(shard):
     bound, each from freshly parsed objects, against a reference model of plain trees (harness/exprseq.cpp)"""
     part = engine.Part()
     w = engine.worker("fast")
-    text, depth = shard
-    req = {"op": "exprseq", "ctx": CTX, "items": [text], "second": "d + 1", "depth": depth}
+    text, depth = shard[:2]
+    req = {"op": "exprseq", "ctx": shard[2] if len(shard) > 2 else CTX, "items": [text], "second": "d + 1", "depth": depth}
     r = w.call_safe(req, timeout=1200)
     if engine.check_crash(part, PID, r, "operation sequences on " + text, req):
         return part.result()
@@ -161,7 +231,10 @@ def main():
                         "kind, symbol -> other symbol, constant +1 / +1ulp, swap of two differing children); equality as a relation "
                         "over pools of ~170 expressions (all pairs, all triples); every sequence of up to 3 (thorough: 4) operations from {equal, "
                         "clone, clone_deeper, subst by another expression / by itself, replacement of a root operand} over three variables "
-                        "for 16 expressions, each from freshly parsed objects, against a reference model of plain trees. non-trivial = parsed "
+                        "for 19 expressions (3 with dynamic quantifiers), each from freshly parsed objects, against a reference model of plain "
+                        "trees; the same laws for every dynamic quantifier (forall/exists/sum over the instances of a dynamic template) x "
+                        "template x body x surrounding, all ordered nestings incl. one binder name twice, and numOf/foreach/sum in SMC "
+                        "queries. non-trivial = parsed "
                         "expression with laws evaluated."
                         % (", depth-3 chains, two-compound-operand parents" if engine.tier() == "thorough" else ""))
     n = engine.ncpu()
@@ -173,8 +246,15 @@ def main():
     for res in engine.pmap(run_queries, [(i, n) for i in range(n)]):
         rep.merge(res)
     sdepth = 4 if rep.tier == "thorough" else 3
-    for res in engine.pmap(run_sequences, [(t, sdepth) for t in SEQ_EXPRS]):
+    for res in engine.pmap(run_sequences, [(t, sdepth) for t in SEQ_EXPRS] + [(t, sdepth, DYN_CTX) for t in DYN_SEQ_EXPRS]):
         rep.merge(res)
+    for res in engine.pmap(run_dynamic, [(i, n) for i in range(n)]):
+        rep.merge(res)
+    if not os.environ.get("UTAPV_REPO"):
+        ex, qs = dynamic_items()
+        unparsed = rep.outcomes.get("dynamic-expr:not-parsed", 0) + rep.outcomes.get("dynamic-query:not-parsed", 0)
+        if unparsed:
+            raise RuntimeError("C19 generator bug: %d of %d dynamic items do not parse" % (unparsed, len(ex) + len(qs)))
     rep.extra["op_sequence_depth"] = sdepth
     for res in engine.pmap(run_pool, [(i, n) for i in range(n)]):
         rep.merge(res)
